@@ -86,6 +86,7 @@ def run(ch: Choices, opts: Dict[str, Any]) -> Dict[str, Any]:
                     max_gen_delay=0 if calm else 400, max_deliver_delay=0 if calm else 400)
     node = ControllerNode("n0", 0, qm, lambda: sched.now, flavour="vanilla", link=link)
     node.env.slow_clear = (not calm) and ch.flag(1, 2, "slow-clear")
+    link.phys_from_executor = (not calm) and ch.flag(1, 3, "phys-from-executor")
     ex = node.ex
     faults: Dict[str, int] = {}
     probes: Dict[str, int] = {}
@@ -150,6 +151,10 @@ def run(ch: Choices, opts: Dict[str, Any]) -> Dict[str, Any]:
         # an application that is being stopped right now (its stop is suspended in a slow clear) has lost its map
         # already while its not-yet-cleared qubits are still marked: those are not judged until the stop has finished
         limbo = set().union(*state["stopping"].values()) if state["stopping"] else set()
+        # physical qubits the link reserved through the executor for pairs that are not mapped yet
+        if link.reserved.get(0):
+            link.reserved[0] -= set(seen)          # mapped now: an ordinary allocated qubit from here on
+            limbo |= link.reserved[0]
         if used - limbo != set(seen) - limbo:
             kind = "leaked" if used - set(seen) else "unmarked"
             raise Violation("I2", f"I2|used-set-{kind}|{where}",
@@ -329,6 +334,7 @@ def run(ch: Choices, opts: Dict[str, Any]) -> Dict[str, Any]:
             others = {p2 for a2, um2 in ex._qubit_unit_modules.items() for p2 in um2 if p2 is not None}
             for a2, lim in state["stopping"].items():
                 others |= lim          # ... or to one that is itself being stopped right now
+            others |= set(link.reserved.get(0, ()))   # ... or hold a pair the link has generated meanwhile
             held = [p for p in um if p is not None and p in qm.live and p not in others]
             if held:
                 raise Violation("I4", "I4|physical-qubits-not-released", {"app": aid, "held": held, "trace": _tail(trace)})
